@@ -18,8 +18,8 @@ const preludeCommon = `
 (declare-fun validDenom (String) Bool)
 (declare-fun opaqueStr (Int) String)
 `
-const preludeExact = preludeCommon + "(define-fun nlmul ((a Int) (b Int)) Int (* a b))\n"
-const preludeUF = preludeCommon + "(declare-fun nlmul (Int Int) Int)\n"
+const preludeExact = preludeCommon + "(define-fun nlmul ((a Int) (b Int)) Int (* a b))\n(define-fun nldiv ((a Int) (b Int)) Int (div a b))\n"
+const preludeUF = preludeCommon + "(declare-fun nlmul (Int Int) Int)\n(declare-fun nldiv (Int Int) Int)\n"
 
 type Solver struct {
 	kind    string
@@ -166,6 +166,7 @@ func classify(lines []string, ok bool) SatResult {
 }
 
 var debugSolver = false
+var ufDbg int
 var traceSolver = os.Getenv("SYMGO_TRACE") != ""
 
 // ---------- statistics ----------
@@ -304,6 +305,10 @@ func (se *Session) Check(extra *Term, wantModel []*Term) (SatResult, map[string]
 		}
 		if res == Unsat {
 			return Unsat, nil
+		}
+		if d := os.Getenv("SYMGO_UFDEBUG"); d != "" && res == Sat && strings.Contains(se.where, d) {
+			ufDbg++
+			os.WriteFile(fmt.Sprintf("/tmp/ufq_%d.smt2", ufDbg), []byte(preludeUF+strings.TrimPrefix(sb.String(), "(push)\n")+"\n(get-model)\n"), 0o644)
 		}
 	}
 	for i, kind := range se.order {
